@@ -113,6 +113,21 @@ def fmt (n : Norm Rat) (b : Bin) : Option Rat → String
 
 /-! ### operations -/
 
+/-- prefix expression for a set-up state: `N` | `T su ge` | `B su ge` | `C su ge <expr> <expr>` -/
+def parseUse : Nat → List String → Option (UseTree × List String)
+  | 0, _ => none
+  | _ + 1, "N" :: r => some (.null, r)
+  | _ + 1, "T" :: su :: ge :: r => some (.noCheck (su == "1") (ge == "1"), r)
+  | _ + 1, "B" :: su :: ge :: r => some (.checked (su == "1") (ge == "1"), r)
+  | fuel + 1, "C" :: su :: ge :: r =>
+    match parseUse fuel r with
+    | some (f, r1) =>
+      match parseUse fuel r1 with
+      | some (g, r2) => some (.chain (su == "1") (ge == "1") f g, r2)
+      | none => none
+    | none => none
+  | _ + 1, _ => none
+
 def stepLine (s : St) (line : String) : St × String :=
   let toks := (line.trimAscii.toString.splitOn " ").filter (· ≠ "")
   let I (t : String) : Int := t.toInt?.getD 0
@@ -172,9 +187,45 @@ def stepLine (s : St) (line : String) : St × String :=
   | ["setup", "fpd", eq, ge, tmn, tmx, axeq] =>
     (s, if fromProjDataSetUp (B eq) (B ge) (B tmn) (B tmx) (B axeq) then "ok" else "fail")
   | ["use", su, ge] => (s, if checkUse (B su) (B ge) then "ok" else "err")
+  | "use2" :: "rv" :: e =>
+    match parseUse 64 e with
+    | some (t, []) => (s, if useRV t then "ok" else "err")
+    | _ => (s, "bad-op")
+  | "use2" :: "whole" :: ex :: e =>
+    match parseUse 64 e with
+    | some (t, []) => (s, if useWhole (B ex) t then "ok" else "err")
+    | _ => (s, "bad-op")
+  | ["setup", "atten", ntof] => (s, if fromAttenSetUp (I ntof) then "ok" else "err")
+  | ["setup", "comp", tof, mash, span] => (s, if componentsSetUp (B tof) (B mash) (B span) then "ok" else "err")
+  | [op, id] =>
+    if op == "triv1" || op == "triv2" then
+      match s.norms.get? id with
+      | some (.chained n1 n2) =>
+        match (if op == "triv1" then isFirstTrivial tolD n1 n2 else isSecondTrivial tolD n1 n2) with
+        | some true => (s, "1")
+        | some false => (s, "0")
+        | none => (s, "err")
+      | _ => (s, "bad-op")
+    else (s, "bad-op")
   | ["chainctor", c1, c2] => (s, if chainCtorOk (Q c1) (Q c2) then "ok" else "err")
   | op :: id :: _route :: seg :: view :: ax :: tof :: tmin :: vals =>
-    if op == "apply" || op == "undo" then
+    if op == "apply1" || op == "apply2" || op == "undo1" || op == "undo2" then
+      match s.norms.get? id with
+      | some (.chained n1 n2) =>
+        let m := if op == "apply1" || op == "undo1" then n1 else n2
+        let (out, _) := vals.foldl (fun (acc : List String × Int) v =>
+          let b : Bin := ⟨I seg, I view, I ax, acc.2, I tof⟩
+          let r := match parseHex v with
+            | none => none
+            | some x =>
+              if op == "apply1" then applyOnlyFirst expQ floorF n1 n2 b x
+              else if op == "apply2" then applyOnlySecond expQ floorF n1 n2 b x
+              else if op == "undo1" then undoOnlyFirst expQ n1 n2 b x
+              else undoOnlySecond expQ n1 n2 b x
+          (fmt m b r :: acc.1, acc.2 + 1)) ([], I tmin)
+        (s, " ".intercalate out.reverse)
+      | _ => (s, "bad-op")
+    else if op == "apply" || op == "undo" then
       match s.norms.get? id with
       | some n =>
         let (out, _) := vals.foldl (fun (acc : List String × Int) v =>
